@@ -339,4 +339,96 @@ theorem eval_sound (H : Heap) :
       | postponed => simp [hz] at h
       | fuel => simp [hz] at h
 
+/-! ## `Postponed` only comes from unresolved attributes -/
+
+theorem navLookup_ne_none (H : Heap) (hres : ∀ o a, H.attr o a ≠ none) (a : String) (m : Mode)
+    (ns : List String) : ∀ sts : List Obj, navLookup H a m ns sts ≠ none
+  | [] => by simp [navLookup]
+  | s :: rest => by
+    simp only [navLookup]
+    cases hs : H.attr s a with
+    | none => exact absurd hs (hres s a)
+    | some l =>
+      simp only
+      split
+      · exact navLookup_ne_none H hres a m ns rest
+      · simp
+
+theorem atomRes_ne_none (H : Heap) (hres : ∀ o a, H.attr o a ≠ none) (a : Atom) (f : Bool)
+    (o : Obj) (ns : List String) : atomRes H a f o ns ≠ none := by
+  cases a with
+  | nav attr m =>
+    rw [atomRes_nav]
+    split
+    · simp
+    · cases h : navLookup H attr m ns (starts H (if f then root H o else o)) with
+      | none => exact absurd h (navLookup_ne_none H hres attr m ns _)
+      | some l => simp
+  | parent T =>
+    simp only [atomRes]
+    split <;> simp
+  | dots n =>
+    simp only [atomRes]
+    split
+    · simp
+    · split <;> simp
+
+theorem feed_ne_postponed (k : St → Vis → Res) (hk : ∀ t V, k t V ≠ .postponed) :
+    ∀ (l : List St) (V : Vis), feed k l V ≠ .postponed
+  | [], V => by simp [feed]
+  | x :: xs, V => by
+    simp only [feed]
+    cases hx : k x V with
+    | cont V1 => exact feed_ne_postponed k hk xs V1
+    | found s => simp
+    | postponed => exact absurd hx (hk x V)
+    | fuel => simp
+
+theorem eval_ne_postponed (H : Heap) (hres : ∀ o a, H.attr o a ≠ none) :
+    ∀ (n : Nat) (e : E) (f : Bool) (s : St) (V : Vis) (k : St → Vis → Res),
+      (∀ t V, k t V ≠ .postponed) → eval H n e f s V k ≠ .postponed := by
+  intro n
+  induction n with
+  | zero => intro e f s V k _; simp [eval]
+  | succ n ih =>
+    intro e f s V k hk
+    cases e with
+    | atom i a =>
+      simp only [eval]
+      cases guard f s i V with
+      | none => simp
+      | some V1 =>
+        simp only
+        cases ha : applyAtom H a f s with
+        | none =>
+          simp only [applyAtom, Option.map_eq_none_iff] at ha
+          exact absurd ha (atomRes_ne_none H hres a f s.o s.ns)
+        | some l => exact feed_ne_postponed k hk l V1
+    | grp i e =>
+      simp only [eval]
+      cases guard f s i V with
+      | none => simp
+      | some V1 => exact ih e f s V1 k hk
+    | alt a b =>
+      simp only [eval]
+      cases ha : eval H n a f s V k with
+      | cont V1 => exact ih b f s V1 k hk
+      | found s' => simp
+      | postponed => exact absurd ha (ih a f s V k hk)
+      | fuel => simp
+    | cat a b =>
+      simp only [eval]
+      exact ih a f s V _ (fun t V1 => ih b false t V1 k hk)
+    | star i e =>
+      simp only [eval]
+      cases guard f s i V with
+      | none => simp
+      | some V1 =>
+        simp only
+        cases hz : feed k (zeros H e f s) V1 with
+        | cont V2 => exact ih e f s V2 _ (fun t V3 => ih (.star i e) false t V3 k hk)
+        | found s' => simp
+        | postponed => exact absurd hz (feed_ne_postponed k hk _ V1)
+        | fuel => simp
+
 end Rrel
